@@ -213,6 +213,16 @@ func (w *encWalker) describeValue(v ssa.Value, order string, pos token.Pos) seg 
 			}
 		}
 	}
+	// member[:] of an array member: the member itself
+	if sl, ok := inner.(*ssa.Slice); ok && sl.Low == nil && sl.High == nil && sl.Max == nil {
+		if pt, ok := sl.X.Type().Underlying().(*types.Pointer); ok {
+			if arr, ok := pt.Elem().Underlying().(*types.Array); ok && sizeOfBasic(arr.Elem()) == 1 {
+				if p, ok := pathOfAddr(sl.X); ok && len(p.Elems) > 0 && (p.Root == w.recv) {
+					return seg{Kind: "field", Name: strings.Join(p.Elems, "."), Width: int(arr.Len()), Order: "", Pos: pos}
+				}
+			}
+		}
+	}
 	width := widthOfType(inner.Type())
 	if width == -2 {
 		failUndecided("%s: written value of type %s has no fixed binary size", w.c.rel(pos), inner.Type())
@@ -509,6 +519,27 @@ func (w *encWalker) sliceSegs(v ssa.Value, pos token.Pos, depth int) ([]seg, boo
 		if x.High != nil && x.Low == nil {
 			if k, ok := constInt(x.High); ok && k == 0 {
 				return nil, true
+			}
+		}
+	case *ssa.UnOp:
+		// the slice is kept in a member of a local writer object (w.buf = append(w.buf, ...)):
+		// follow the member's reaching definition along the walked path
+		if x.Op == token.MUL {
+			if _, isLocal := localMemberOf(x.X); isLocal {
+				if sv, ok := forwardLoad(x); ok {
+					return w.sliceSegs(sv, pos, depth+1)
+				}
+				if ms := memoryMerge(x); len(ms) > 1 {
+					for _, m := range ms {
+						for i := len(w.path) - 1; i > 0; i-- {
+							if w.path[i] == m.at && w.path[i-1] == m.from {
+								w.phiUse++
+								return w.sliceSegs(m.val, pos, depth+1)
+							}
+						}
+					}
+					failUndecided("%s: cannot tell which state of the writer object reaches here", w.c.rel(pos))
+				}
 			}
 		}
 	case *ssa.Phi:
